@@ -25,6 +25,8 @@ def run(tier):
                               hints_mode=rng.choice([None, "random", "none", "onlyone"]), rot=(i % 3 == 0),
                               qr_mode=rng.choice([None, "one", "sparse"]))
           for i in range(n)]
+    hs += [histgen.add_external_block_ops(rng, histgen.gen_history(rng, nops=30, comp="none", sizes=[1, 2, 3], rot=False), p=0.5)
+           for _ in range(n // 3)]
     m2 = run_histories(chk, hs, {"C12"}, label="c12r", sample=False)
     chk.distinct = m1["execs"] + m2["execs"]
     return chk.finish()
